@@ -373,6 +373,10 @@ class DD:
         args = [self._operand(body, a, env, asg) for a in t['args']]
         if c is None:
             raise Undecided('%s: indirect call' % body.path)
+        if c in ('std::ops::Fn::call', 'std::ops::FnMut::call_mut', 'std::ops::FnOnce::call_once') and len(args) == 2 and \
+                isinstance(args[1], tuple) and args[1][0] == 'tuple' and isinstance(args[0], tuple) and args[0][0] in ('closure', 'fnitem'):
+            # a local closure called by name (`let kept = |x| ..; kept(&av)`): the tuple is its argument list
+            return self._apply(args[0], list(args[1][1]), asg, depth)
         O = 'std::option::Option::<T>::'
         if c in (O + 'is_some_and', O + 'map_or', O + 'map', O + 'is_some', O + 'is_none', O + 'map_or_else', O + 'unwrap_or',
                  O + 'unwrap_or_else', O + 'unwrap_or_default', O + 'is_none_or', O + 'and_then', O + 'filter',
@@ -435,6 +439,14 @@ class DD:
                         out.append((a2, ('none',)))
                     else:
                         out.extend(self._apply(args[1], [payload], a2, depth))
+                elif meth == 'filter':
+                    # the same payload or nothing: the predicate only decides
+                    if payload is None:
+                        out.append((a2, ('none',)))
+                    else:
+                        for a3, v in self._apply(args[1], [payload], a2, depth):
+                            for a4, tv in self._decide(self._truth(v), a3):
+                                out.append((a4, ('some', payload) if tv else ('none',)))
             return out
         if c in (O + 'zip', O + 'xor', O + 'or', O + 'and'):
             meth = c.split('::')[-1]
@@ -461,6 +473,13 @@ class DD:
             return out
         if c in ('std::cmp::PartialEq::eq', 'std::cmp::PartialEq::ne'):
             a, b = args
+            if a[0] in ('some', 'none') and b[0] in ('some', 'none'):
+                # Option == Option: both Some -> their payloads compare; one of each -> unequal; both None -> equal
+                if a[0] == 'some' and b[0] == 'some':
+                    f = atom2('eq', a[1], b[1])
+                    return [(asg, ('bool', f if c.endswith('::eq') else f_not(f)))]
+                r = a[0] == b[0]
+                return [(asg, ('const', int(r if c.endswith('::eq') else not r)))]
             if a[0] == 'adt' and b[0] == 'adt':
                 r = (a[1], a[2]) == (b[1], b[2]) and not a[3] and not b[3]
                 if a[3] or b[3]:
